@@ -370,19 +370,31 @@ impl<'a, const D: usize> Rdp<'a, D> {
             return;
         }
 
-        let sp = SurfacePoint::new_normalize(self.points[i0], self.points[i1] - self.points[i0]);
+        // Distances are measured to the chord *segment* between the two end points, not to the
+        // infinite line through them. When the two ends coincide (a closed span) the chord
+        // degenerates to a point and the distance to that point is used.
+        let a = self.points[i0];
+        let ab = self.points[i1] - a;
+        let ab_len2 = ab.norm_squared();
         let mut max_dist = 0.0;
         let mut max_i = 0;
 
         for i in i0 + 1..i1 {
-            let dist = (sp.projection(&self.points[i]) - self.points[i]).norm();
+            let ap = self.points[i] - a;
+            let t = if ab_len2 > 0.0 {
+                (ap.dot(&ab) / ab_len2).clamp(0.0, 1.0)
+            } else {
+                0.0
+            };
+            let dist = (ap - ab * t).norm();
             if dist > max_dist {
                 max_dist = dist;
                 max_i = i;
             }
         }
 
-        if max_dist > self.tol {
+        // A closed span always keeps its farthest point so that it cannot collapse to nothing
+        if max_dist > self.tol || (ab_len2 == 0.0 && max_dist > 0.0) {
             self.simplify(i0, max_i);
             self.simplify(max_i, i1);
         }
